@@ -355,3 +355,121 @@ Proof.
       split; [|auto]. apply (geo2_exit _ l G). intros o Ho Lo Ro. destruct (RM o Ho Lo Ro) as [X|X]; lra.
   - inversion H. subst s'. split; [|auto]. apply (geo2_exit _ l G). exact RO.
 Qed.
+
+(* Blocks::mergeRight as a whole: setUpOutConstraints, findMinOutConstraint, the loop *)
+Theorem merge_right_all_sat s l s' :
+  MRI (base s) l ->
+  (forall s1 c, find_min_out (set_up_heap false s l) l = Ok (s1, c) -> mr_roots_ok (loop_fuel s) s1 l c) ->
+  merge_right s l = Ok s' ->
+  all_sat0 (base s') /\ book (base s') /\ act_inv (base s') /\ all_blk_ok (base s') /\
+  scons (base s') = scons (base s) /\ svars (base s') = svars (base s).
+Proof.
+  intros I R H. unfold merge_right in H. apply bind_ok in H. destruct H as [[s1 c1] [H1 H2]]. cbn [fst snd] in H2.
+  pose proof (find_min_out_base _ _ _ _ H1) as E1. rewrite base_set_up_heap in E1.
+  assert (I1 : MRI (base s1) l) by (rewrite E1; exact I).
+  destruct (mr_loop_all_sat _ _ _ _ _ I1 (R s1 c1 H1) H2) as [A [B1 [B2 [B3 [B4 B5]]]]].
+  rewrite E1 in B4, B5. auto 6.
+Qed.
+
+(* how I2 is established when Blocks::split reaches mergeRight(r):
+   (i)  r was not merged by mergeLeft(l): every constraint holds and r is moved rigidly to the right (to its optimum);
+   (ii) r was merged into l's block M: mergeLeft's exit gives the in-constraints, its loop invariant J the rest. *)
+Lemma geo2_entry_move b b' N rho :
+  book b -> wf_vars (svars b) -> all_sat0 b ->
+  scons b' = scons b -> svars b' = svars b ->
+  (forall u, (u < length (svars b))%nat -> blk_of b' u = blk_of b u) ->
+  0 <= rho ->
+  (forall u, (u < length (svars b))%nat -> blk_of b u = N -> Yof b' u == Yof b u + rho) ->
+  (forall u, (u < length (svars b))%nat -> blk_of b u <> N -> Yof b' u == Yof b u) ->
+  geo2 b' N.
+Proof.
+  intros BK W A Es Ev EB Hr Y1 Y2.
+  assert (W' : wf_vars (svars b')) by (rewrite Ev; exact W).
+  assert (Kcon : forall c, con_of b' c = con_of b c) by (intros c; unfold con_of; rewrite Es; reflexivity).
+  assert (SY : forall c, slack_val b c == Yof b (cr (con_of b c)) - gap (con_of b c) - Yof b (cl (con_of b c)))
+    by (intros c; apply slack_Y'; exact W).
+  assert (SY' : forall c, slack_val b' c == Yof b' (cr (con_of b c)) - gap (con_of b c) - Yof b' (cl (con_of b c))).
+  { intros c. rewrite (slack_Y' b' c W'), Kcon. reflexivity. }
+  assert (Ends : forall c, (c < length (scons b))%nat ->
+            (cl (con_of b c) < length (svars b))%nat /\ (cr (con_of b c) < length (svars b))%nat)
+    by (intros c Hc; exact (con_ends_lt _ _ BK Hc)).
+  constructor.
+  - intros c Hc Iff. rewrite Es in Hc. rewrite !Kcon in Iff. destruct (Ends c Hc) as [Hl Hr'].
+    rewrite !EB in Iff by assumption. rewrite (SY' c). pose proof (SY c) as Sc. pose proof (A c Hc) as Ac.
+    destruct (Nat.eq_dec (blk_of b (cl (con_of b c))) N) as [E|E].
+    + rewrite (Y1 _ Hl E), (Y1 _ Hr' (proj1 Iff E)). lra.
+    + assert (E2 : blk_of b (cr (con_of b c)) <> N) by tauto.
+      rewrite (Y2 _ Hl E), (Y2 _ Hr' E2). lra.
+  - intros i Hi Er Nl. rewrite Es in Hi. rewrite !Kcon in Er, Nl. destruct (Ends i Hi) as [Hl Hr'].
+    rewrite EB in Er, Nl by assumption. rewrite (SY' i). pose proof (SY i) as Si. pose proof (A i Hi) as Ai.
+    rewrite (Y1 _ Hr' Er), (Y2 _ Hl Nl). lra.
+  - intros i o Hi Ho Eri Nli Elo Nro. rewrite Es in Hi, Ho. rewrite !Kcon in Eri, Nli, Elo, Nro.
+    destruct (Ends i Hi) as [Hil Hir]. destruct (Ends o Ho) as [Hol Hor].
+    rewrite EB in Eri, Nli, Elo, Nro by assumption.
+    rewrite (SY' i), (SY' o). pose proof (SY i) as Si. pose proof (SY o) as So.
+    pose proof (A i Hi) as Ai. pose proof (A o Ho) as Ao.
+    rewrite (Y1 _ Hir Eri), (Y2 _ Hil Nli), (Y1 _ Hol Elo), (Y2 _ Hor Nro). lra.
+Qed.
+
+(* the pair invariant J of mergeLeft's loop inside split (bit 1024 of StaticRefB) *)
+Record geoJ (b : st) (N : nat) : Prop := {
+  j_rest : forall c, (c < length (scons b))%nat ->
+             (blk_of b (cl (con_of b c)) = N <-> blk_of b (cr (con_of b c)) = N) -> 0 <= slack_val b c;
+  j_pair : forall i o, (i < length (scons b))%nat -> (o < length (scons b))%nat ->
+           blk_of b (cr (con_of b i)) = N -> blk_of b (cl (con_of b i)) <> N ->
+           blk_of b (cl (con_of b o)) = N -> blk_of b (cr (con_of b o)) <> N ->
+           0 <= slack_val b i + slack_val b o }.
+Lemma geo2_entry_merged b N :
+  geoJ b N ->
+  (forall i, (i < length (scons b))%nat -> blk_of b (cr (con_of b i)) = N -> blk_of b (cl (con_of b i)) <> N ->
+     0 <= slack_val b i) ->
+  geo2 b N.
+Proof. intros [J1 J2] HI. constructor; assumption. Qed.
+
+(* ------------------------------------------------------------------ boolean forms (for non-vacuity by computation) *)
+Lemma all_satb_spec s : all_satb s = true -> all_sat0 (base s).
+Proof.
+  unfold all_satb. intros H c Hc. rewrite forallb_forall in H.
+  assert (Hin : In c (seq 0 (length (scons (base s))))) by (apply in_seq; lia).
+  specialize (H c Hin). apply Qleb_spec in H. exact H.
+Qed.
+Fixpoint passes_okb (tries : nat) (s : sst) : bool :=
+  match tries with
+  | O => true
+  | S t => match refine_pass s with
+           | Ok (s', d) => all_satb s' && (if d then passes_okb t s' else true)
+           | _ => false
+           end
+  end.
+Lemma passes_okb_spec : forall tries s, passes_okb tries s = true -> passes_ok tries s.
+Proof.
+  induction tries as [|t IH]; intros s H; cbn [passes_ok passes_okb] in *; [exact I|].
+  destruct (refine_pass s) as [[s' d]| |]; try discriminate.
+  apply andb_prop in H. destruct H as [H1 H2]. split; [apply all_satb_spec; exact H1|].
+  destruct d; [apply IH; exact H2 | exact I].
+Qed.
+
+(* a DAG on which refine really splits (instance 284 of the probe family: one split, then a fixpoint) *)
+Definition rx_vs : list var := [mkvar 3 2 1; mkvar 4 1 1; mkvar (5 # 2) 1 1].
+Definition rx_cs : list con := [mkcon 1 0 0 false; mkcon 1 2 (-1) false; mkcon 1 2 (-2) false].
+
+Example static_solve_returns_given_passes_example :
+  wf_vars rx_vs /\ wf_cons rx_vs rx_cs /\ dag_orderb (init rx_vs rx_cs) = true /\
+  (forall s1, static_satisfy (static_init rx_vs rx_cs) = Ok s1 -> passes_ok MAXTRIES s1) /\
+  (exists s1 s2, static_satisfy (static_init rx_vs rx_cs) = Ok s1 /\ refine_pass s1 = Ok (s2, true)).
+Proof.
+  split; [|split; [|split; [|split]]].
+  - intros i Hi. unfold rx_vs in *. cbn [length] in Hi.
+    destruct i as [|[|[|i]]]; try lia; cbn; split; reflexivity.
+  - intros c [<-|[<-|[<-|[]]]]; cbn; lia.
+  - vm_compute. reflexivity.
+  - intros s1 H. apply passes_okb_spec.
+    assert (E : exists s, static_satisfy (static_init rx_vs rx_cs) = Ok s /\ passes_okb MAXTRIES s = true).
+    { eexists. split; vm_compute; reflexivity. }
+    destruct E as [s [E1 E2]]. rewrite E1 in H. inversion H. subst s1. exact E2.
+  - assert (E : exists s, static_satisfy (static_init rx_vs rx_cs) = Ok s /\
+                          match refine_pass s with Ok (_, true) => true | _ => false end = true).
+    { eexists. split; vm_compute; reflexivity. }
+    destruct E as [s [E1 E2]]. exists s. destruct (refine_pass s) as [[s2 [|]]| |]; try discriminate.
+    exists s2. split; [exact E1 | reflexivity].
+Qed.
